@@ -203,6 +203,40 @@ mk!(eq_le, rev_cmp, hash_m, clone_m8, fmt_any, widen, u16, 7, Zed);
         mods.append(Module(f'm{n:04d}', f'values forwarded through macro_rules fragments ($m:path, $t:ty, $r:expr, $n:ident), method spelled `{tag}`', body, [h],
                            sample=dict(spelling=form), functions=FUNCTIONS))
         n += 1
+    # names, ranks and booleans forwarded as `$x:ident` / `$x:expr` / `$x:literal`, each in the `p(v)` and the `p = v` spelling
+    decl = '''use crate::support::dbg::*;
+macro_rules! mk2 {
+    ($n:ident, $s:expr, $l:literal, $r:expr, $b:expr, $c:literal) => {
+        #[derive(Educe)]
+        #[educe(Debug(name($n)))]
+        pub struct D1 { #[educe(Debug(name($s)))] pub a: Val<1>, #[educe(Debug(name = $s))] pub b: Val<2>, #[educe(Debug(name($l)))] pub c: Val<3>, #[educe(Debug(name = $l))] pub d: Val<4> }
+        #[derive(Educe)]
+        #[educe(PartialOrd, Ord)]
+        #[derive(PartialEq, Eq)]
+        pub struct O1 { #[educe(Ord(rank($r)))] pub a: u8, pub b: u8 }
+        #[derive(Educe)]
+        #[educe(PartialEq)]
+        pub struct P1 { #[educe(PartialEq(ignore = $b))] pub a: u8, #[educe(PartialEq(ignore($b)))] pub b: u8, #[educe(PartialEq(ignore = $c))] pub c: u8, #[educe(PartialEq(ignore($c)))] pub d: u8, pub e: u8 }
+    };
+}
+mk2!(Zed, "kk", "ll", 7, true, true);
+'''
+    h = Harness('h_forwarded2', unwind=60, covers=['reached'])
+    body = decl + h.attrs() + '''pub fn h_forwarded2() {
+    let (p, q, r, s): (u8, u8, u8, u8) = (kani::any(), kani::any(), kani::any(), kani::any());
+    kani::cover!(true, "reached");
+    assert!(Ord::cmp(&O1 { a: p, b: q }, &O1 { a: r, b: s }) == q.cmp(&s).then(p.cmp(&r)), "rank(v) forwarded by a macro");
+    assert!((P1 { a: p, b: q, c: p, d: q, e: 5 } == P1 { a: r, b: s, c: s, d: r, e: 5 }) && (P1 { a: p, b: q, c: p, d: q, e: 5 } != P1 { a: p, b: q, c: p, d: q, e: 6 }), "ignore = v / ignore(v) forwarded by a macro");
+    log_reset();
+    let (b1, r1) = render(&D1 { a: Val(1), b: Val(2), c: Val(3), d: Val(4) }, false);
+    let wantb = b"Zed { kk: v1, kk: v2, ll: v3, ll: v4 }";
+    assert!(r1.is_ok() && !b1.overflow && b1.n == wantb.len(), "Debug names forwarded by a macro (length)");
+    let mut i = 0;
+    while i < wantb.len() { assert!(b1.b[i] == wantb[i], "Debug names forwarded by a macro"); i += 1; }
+}
+'''
+    mods.append(Module(f'm{n:04d}', 'names / ranks / booleans forwarded through macro_rules fragments ($n:ident, $s:expr, $l:literal), both spellings', body, [h], sample=dict(spelling='p(v) and p = v'), functions=FUNCTIONS))
+    n += 1
     return mods
 
 
